@@ -1,6 +1,7 @@
 """C10 - malformed client input gets a client error, never gqlgen's own panic path."""
 import json
 import os
+import re
 from collections import Counter
 from lib import vf
 
@@ -35,12 +36,17 @@ def au_norm(s):
     return tuple(f[:3])
 
 
+def rs_op(o):
+    """<reader>r<n> | <reader>s<whence>:<off>  ->  (reader, 'r'|'s', rest)"""
+    m = re.match(r"(\d+)([rs])(.*)$", o)
+    return int(m.group(1)), m.group(2), m.group(3)
+
+
 def rs_op_text(o):
-    k = "".join(ch for ch in o[:3] if ch.isdigit())
-    rest = o[len(k):]
-    if rest[0] == "r":
-        return "reader %s: Read(buffer of %s bytes)" % (k, rest[1:])
-    w, off = rest[1:].split(":")
+    k, kind, rest = rs_op(o)
+    if kind == "r":
+        return "reader %s: Read(buffer of %s bytes)" % (k, rest)
+    w, off = rest.split(":")
     return "reader %s: Seek(%s, %s)" % (k, off, {"0": "io.SeekStart", "1": "io.SeekCurrent", "2": "io.SeekEnd"}.get(w, "whence " + w))
 
 
@@ -317,10 +323,10 @@ def run(ctx):
             obs = [] if obs_s == "-" else obs_s.split(",")
             kv = dict(x.split("=", 1) for x in m.split(" ")) if m is not None and m.startswith("impl=") else None
             rkinds = [x.split(":")[0] for x in readers.split(";")]
-            spec = kv["spec"].split(",") if kv else (orc.split(",") if not any(k2 == "f" and "r0" in o for o in ops for k2 in rkinds) else None)
+            spec = kv["spec"].split(",") if kv else (orc.split(",") if "f" not in rkinds else None)
             for o in ops:
-                kk = "".join(ch for ch in o[:3] if ch.isdigit())
-                branch["rs:%s:%s" % (rkinds[int(kk)] if int(kk) < len(rkinds) else "?", "read" if o[len(kk)] == "r" else "seek" + o[len(kk) + 1:].split(":")[0])] += 1
+                kk, okind, orest = rs_op(o)
+                branch["rs:%s:%s" % (rkinds[kk] if kk < len(rkinds) else "?", "read" if okind == "r" else "seek" + orest.split(":")[0])] += 1
             for a in obs:
                 branch["rs:answer:" + (a[0] + (a[-2:] if a[0] == "d" else ""))] += 1
             nontriv.add(enc)
